@@ -424,7 +424,12 @@ func main() {
 	// thorough: n=5 with the two spellings only (rel/abs), to reach the property's stated bound of 5 entries
 	if r.Thorough() && !r.Expired() {
 		n := 5
-		ks := kindsFor(n, false)
+		// the alphabet the property states for its bound of 5 entries: file, directory, missing, deleted,
+		// and a relative or absolute link to any entry (the further kinds are covered up to n = 4)
+		ks := []kind{{K: "file"}, {K: "dir"}, {K: "missing"}, {K: "deleted"}}
+		for j := 0; j < n; j++ {
+			ks = append(ks, kind{K: "link", To: j, Spell: "rel"}, kind{K: "link", To: j, Spell: "abs"})
+		}
 		total := 1
 		for i := 0; i < n; i++ {
 			total *= len(ks)
